@@ -1385,10 +1385,10 @@ func (vm *VM) run() (Addr, bool) {
 					iter := v.MapRange()
 					for iter.Next() {
 						if b != 0 {
-							vm.setFromReflectValue(b, iter.Key())
+							vm.setFromReflectValue(b, iterationValue(iter.Key()))
 						}
 						if c != 0 {
-							vm.setFromReflectValue(c, iter.Value())
+							vm.setFromReflectValue(c, iterationValue(iter.Value()))
 						}
 						vm.pc = bodyAddress
 						addr, breakOut := vm.run()
@@ -1419,7 +1419,7 @@ func (vm *VM) run() (Addr, bool) {
 							break
 						}
 						if b != 0 {
-							vm.setFromReflectValue(b, u)
+							vm.setFromReflectValue(b, iterationValue(u))
 						}
 						vm.pc = bodyAddress
 						addr, breakOut := vm.run()
@@ -1462,7 +1462,7 @@ func (vm *VM) run() (Addr, bool) {
 							vm.setInt(b, int64(i))
 						}
 						if c != 0 {
-							vm.setFromReflectValue(c, v.Index(i))
+							vm.setFromReflectValue(c, iterationValue(v.Index(i)))
 						}
 						vm.pc = bodyAddress
 						addr, breakOut := vm.run()
